@@ -220,13 +220,15 @@ def equilibrium_range_values(
             iiu = np.min((iFreq + number_of_bins, nf))
 
             # Ensure there are no 0 contributions (essentially no data)
-            m = scaled_spec[..., iFreq:iiu].mean(dim="frequency")
+            m = scaled_spec[..., iFreq:iiu].mean(dim="frequency", skipna=False)
             variance[..., i_counter] = ((scaled_spec[..., iFreq:iiu] - m) ** 2).mean(
-                dim="frequency"
+                dim="frequency", skipna=False
             ) / (m**2)
             i_counter = i_counter + 1
             #
         #
+        # windows with missing data (or without energy) are no candidates
+        variance = np.where(np.isnan(variance), np.inf, variance)
         i_min_variance = np.argmin(variance, axis=-1) + i_min
 
         e = np.zeros(i_min_variance.shape)
